@@ -348,16 +348,20 @@ Record output := mkout {
   out_recs : list mrec
 }.
 
-(* [simple_smaller]: len(simpleData) > 0 && len(simpleData) < len(animData).
+(* [has_meta]: an ICC / EXIF / XMP blob was set on the encoder (SetICCProfile ...);
+   the simple still carries no metadata, so the single-frame optimisation is then
+   skipped and the muxer writes an extended file (with one frame of duration 0: a
+   non-animated VP8X file with the metadata chunks).  Metadata never touches a frame.
+   [simple_smaller]: len(simpleData) > 0 && len(simpleData) < len(animData).
    None: Muxer.Assemble fails with ErrNoFrames. *)
-Definition close (simple_smaller : bool) (st : est) : option output :=
+Definition close (has_meta simple_smaller : bool) (st : est) : option output :=
   match e_recs st with
   | [] => None
   | r0 :: _ =>
       let W := e_W st in let H := e_H st in
       match e_prev st with
       | Some prev =>
-          if (e_fcount st =? 1) && simple_smaller then
+          if (e_fcount st =? 1) && negb has_meta && simple_smaller then
             Some (mkout true true W H 0
                     [mkmrec 0 0 (mkimg W H prev) (negb (eo_lossless (e_opts st))) false false 0])
           else if mux_animated (e_recs st) then
